@@ -34,6 +34,7 @@ package bsonkit
 //@   ensures [C12] result == spec.strcmp(spec.str(lv), spec.str(rv))
 //@ func compareDocuments
 //@   tags C12
+//@   locals l r i res
 //@   uses cmp wf
 //@   requires spec.wfVal(lv) && spec.wfVal(rv) && is(lv, VDoc) && is(rv, VDoc)
 //@   decreases 2*(spec.size(lv) + spec.size(rv))
@@ -42,6 +43,7 @@ package bsonkit
 //@   loop 0 invariant forall(j, 0, i, spec.cmpElem(l[j], r[j]) == 0)
 //@ func compareArrays
 //@   tags C12
+//@   locals l r i res
 //@   uses cmp wf
 //@   requires spec.wfVal(lv) && spec.wfVal(rv) && is(lv, VArr) && is(rv, VArr)
 //@   decreases 2*(spec.size(lv) + spec.size(rv))
@@ -87,6 +89,62 @@ package bsonkit
 //@ func compareFloat64ToInt64
 //@   tags C12
 //@   ensures [C12] result == spec.cmpQ(spec.q_ofF64(l), spec.q_ofI64(r))
+
+// ---------------------------------------------------------------------------
+// set.go
+//
+// wfSet: List and Index describe the same documents, each once.
+// ownSet: the backing array and the map were allocated after the Set itself
+// (a Set is only ever mutated through its own fresh parts: copy-on-write).
+
+//@ define wfSet(s) = s != nil && s.Index != nil &&
+//@   forall(i, 0, len(s.List), has(s.Index, s.List[i]) && s.Index[s.List[i]] == i) &&
+//@   all(d, Ref, imp(has(s.Index, d), 0 <= s.Index[d] && s.Index[d] < len(s.List) && s.List[s.Index[d]] == d))
+//@ define ownSet(s) = alloc(s.Index) > alloc(s) && (cap(s.List) == 0 || alloc(s.List.base) > alloc(s))
+
+//@ func (*Set).Add
+//@   tags C15 C03 C01
+//@   requires wfSet(s) && ownSet(s)
+//@   modifies s.List, elems(s.List), mapof(s.Index)
+//@   ensures [C15,C03] wfSet(s) && ownSet(s)
+//@   ensures [C15,C01] result == !old(has(s.Index, doc))
+//@   ensures [C15,C01] imp(!result, s.List == old(s.List))
+//@   ensures [C15,C01] imp(result, len(s.List) == old(len(s.List)) + 1 && s.List[old(len(s.List))] == doc)
+//@   ensures [C15,C01] forall(i, 0, old(len(s.List)), s.List[i] == old(s.List[i]))
+//@   ensures [C03] s.Index == old(s.Index)
+
+//@ func (*Set).Replace
+//@   tags C15 C03 C01
+//@   requires wfSet(s) && ownSet(s)
+//@   modifies elems(s.List), mapof(s.Index)
+//@   ensures [C15,C03] wfSet(s) && ownSet(s)
+//@   ensures [C15,C01] result == (old(has(s.Index, d1)) && !old(has(s.Index, d2)))
+//@   ensures [C15,C01] len(s.List) == old(len(s.List))
+//@   ensures [C15,C01] imp(result, s.List[old(s.Index[d1])] == d2)
+//@   ensures [C15,C01] forall(i, 0, len(s.List), imp(!result || i != old(s.Index[d1]), s.List[i] == old(s.List[i])))
+
+//@ func (*Set).Remove
+//@   tags C15 C03 C01
+//@   locals i ok
+//@   requires wfSet(s) && ownSet(s)
+//@   modifies s.List, elems(s.List), mapof(s.Index)
+//@   ensures [C15,C03] wfSet(s) && ownSet(s)
+//@   ensures [C15,C01] result == old(has(s.Index, doc))
+//@   ensures [C15,C01] imp(!result, s.List == old(s.List))
+//@   ensures [C15,C01] imp(result, len(s.List) == old(len(s.List)) - 1)
+//@   ensures [C15,C01] imp(result, forall(j, 0, len(s.List), s.List[j] == old(s.List[ite(j < s.Index[doc], j, j + 1)])))
+//@   loop 0 invariant old(s.Index[doc]) <= i && i <= len(s.List)
+//@   loop 0 invariant all(d, Ref, has(s.Index, d) == (old(has(s.Index, d)) && d != doc))
+//@   loop 0 invariant all(d, Ref, imp(has(s.Index, d), s.Index[d] == ite(old(s.Index[d]) < old(s.Index[doc]), old(s.Index[d]), ite(old(s.Index[d]) - 1 < i, old(s.Index[d]) - 1, old(s.Index[d])))))
+//@   loop 0 decreases len(s.List) - i
+
+//@ func (*Set).Clone
+//@   tags C03 C15
+//@   requires wfSet(s)
+//@   modifies nothing
+//@   ensures [C03] fresh(result) && fresh(result.Index) && (len(result.List) == 0 || fresh(result.List))
+//@   ensures [C03,C15] wfSet(result) && ownSet(result)
+//@   ensures [C03,C15] len(result.List) == len(s.List) && forall(i, 0, len(s.List), result.List[i] == s.List[i])
 
 // ---------------------------------------------------------------------------
 // math.go
